@@ -736,6 +736,9 @@ def vle(feed, vap, liq, T=None, P=None, V=None, Q=None, x=None, y=None,
     liq.phase = 'l'
     vap.mol[:] = ms.imol['g']
     liq.mol[:] = ms.imol['l']
+    for phase in ms.phases:
+        # Phases that take no part in the equilibrium (e.g., solids) leave with the liquid
+        if phase not in ('g', 'l'): liq.mol += ms.imol[phase]
     vap.T = liq.T = ms.T
     vap.P = liq.P = ms.P
     
